@@ -88,6 +88,7 @@ BaseDocs(d) ==
                     <<Rec(1, 0, 0, 0, <<32, 17, 4096>>), Rec(1, 0, 0, 0, <<32, 16, 4096>>), Rec(5, 0, 0, 0, <<17>>)>>,
                     <<Rec(1, 0, 0, 0, <<16, 4096, 32, 17>>), Rec(1, 0, 0, 0, <<17, 4096, 32, 16>>)>>,                            \* two shared frames: both stripped
                     [i \in 1..33 |-> IF i = 7 THEN Rec(1, 0, 0, 0, <<16, 32>>) ELSE Rec(i, 0, 0, 0, <<16 + (i % 2), 4096, 32>>)],  \* nearly all (32 of 33)
+                    [i \in 1..33 |-> IF i = 7 THEN Rec(1, 0, 0, 0, <<16, 17>>) ELSE Rec(i, 0, 0, 0, <<16 + (i % 2), 4096, 32>>)],  \* the outlier keeps its own caller
                     [i \in 1..34 |-> IF i \in {7, 9} THEN Rec(1, 0, 0, 0, <<16, 32>>) ELSE Rec(1, 0, 0, 0, <<17, 4096, 32>>)],     \* 32 of 34: not enough
                     <<Rec(3, 0, 0, 0, <<17, 17, 32>>)>> } }                                                                          \* duplicated leaf
 
